@@ -19,7 +19,7 @@ CHECKS = {
  "C09": dict(technique="invariant at a hook: frame/operand stack depth sampled inside running loops via #%verif-stack-depth; process-survival and peak-RSS monitors at n and 10n iterations",
              text="Exploration: generated tail-loop shapes are run for 10^3..10^5 (quick) / 10^7 (thorough) iterations with JIT on and off; depth samples taken inside the loop at the first, middle and last iteration must stay within a 16-slot slack, the result must equal the closed form, the process must survive, peak RSS at 10n may exceed that at n by at most 48 MB; deep non-tail recursion must end in an error value.",
              note="Trusted: the depth hook reports lengths of the VM's frame and operand stacks; native stack use is covered only by process survival.", ref="DESIGN.md §5 C09"),
- "C18": dict(technique="runtime monitoring of child processes: exit-status / stack-overflow / panic monitors per (shape x operation x depth), termination deadline for small cyclic structures",
+ "C18": dict(technique="runtime monitoring of child processes: exit-status / stack-overflow / panic monitors per (shape x operation x depth), deep values held inside containers of another kind on a 1 MB stack, rings of 10^5 containers, seeded cyclic graphs with every node as root, termination deadline for cyclic structures",
              text="Exploration: each (value shape x operation x depth) runs on the real engine in its own forked child (default 8 MB stack; 1 MB in the thorough tier); a death by signal/abort, a panic, or non-termination on a <=10-cell cyclic structure is a violation; an error value is accepted.",
              note="Trusted: fork isolation. Time-outs on deep acyclic values and address-space-cap aborts are inconclusive cases.", ref="DESIGN.md §5 C18"),
  "C01": dict(technique="differential runtime monitoring: real engine (top-level, module mode, JIT off) vs reference CEK machine on seeded type-directed programs; tree-shrinking of witnesses; root-cause attribution",
@@ -40,13 +40,13 @@ CHECKS = {
  "C11": dict(technique="differential runtime monitoring vs structural equality of canonical renderings and Python sequence/dict/set models",
              text="Exploration: generated pairs/triples of values of all kinds with explicit sharing and diamond DAGs (equal?, symmetry, transitivity, interchangeability as hash keys / set members) and seeded operation sequences on each collection kind, compared with the reference machine (top level, module, JIT off).",
              note="Trusted: canonical rendering equality as the definition of structural equality; exact and inexact numbers differ; mutable vs immutable vectors are not cross-compared.", ref="DESIGN.md §5 C11"),
- "C04": dict(technique="invariant at a hook (H-slot: access through a handle to a slot the collector freed) + poisoning of freed slots + differential comparison with the reference machine, under forced full collections at every k-th allocation",
+ "C04": dict(technique="invariant at a hook (H-slot: access through a handle to a slot the collector freed) + poisoning of freed slots + differential comparison with the reference machine, under the engine's own collections after cyclic garbage (natural cadence) and under forced full collections at every k-th allocation",
              text="Exploration: root-placement templates (pending argument, let temporary, closure capture, open/closed continuation, exception handler incl. one reachable only through a continuation, wind thunk, global and shadowed global, nested containers, another thread's stack and thread-local slot, the value being allocated) run with a forced full collection (through the engine's own mark/stop-the-world code) at every 1st/3rd/jittered allocation, JIT on/off, top level and module.",
              note="Trusted: hook H-gc drives the engine's own mark code; poisoning makes stale reads visible. Values returned to the host (not rooted) are not inspected.", ref="DESIGN.md §5 C04"),
  "C05": dict(technique="Miri (UB / use-after-free / data-race interpreter, many scheduler seeds) + native stress of a shadow-model history driver for steel-rc",
              text="Exploration: seeded histories of new/clone/drop/move/get_mut/make_mut/try_unwrap/merge/thread-exit on <=3 threads with an exact shadow count (sequential mode) or schedule-independent assertions (concurrent mode): ~10^5 (quick) / 10^7 (thorough) native operations and 16 (quick) / 512 (thorough) Miri executions.",
              note="Trusted: Miri's model of Rust semantics; schedules are sampled, not enumerated. Only steel-rc is interpreted by Miri (steel-core cannot run under it).", ref="DESIGN.md §5 C05"),
- "C15": dict(technique="invariant at a hook (H-sync: per-thread 'being inspected' flag set around every foreign read/write of a thread's state by a stopper and checked by the thread at every instruction boundary and when it leaves a safepoint; H-slot freed-slot-access monitor) under thread stress with seeded delays injected at the handshake's suspension points and forced collections through the engine's own stop-the-world code; crash monitor; result oracles for stack-only box chains, global visibility and mutex-protected counters",
+ "C15": dict(technique="invariants at hooks (H-sync: a thread found executing while its context pointer is still published as parked; per-thread 'being inspected' flag set around every foreign read/write of a thread's state by a stopper and checked by the thread at every instruction boundary and when it leaves a safepoint; H-slot freed-slot-access monitor) under thread stress with seeded delays injected at the handshake's suspension points and forced collections through the engine's own stop-the-world code; crash monitor; result oracles for stack-only box chains, global visibility and mutex-protected counters",
              text="Exploration: generated programs with 1..8 native threads of 11 kinds (channels direct / via map / via apply, mutex-protected global counters, global assignment racing with collections, concurrent collectors, stack-only box chains, threads spawning threads, threads exiting during collections, assign-then-tell visibility) under JIT on/off, top level and compiled as a module, forced full collections every k-th allocation and seeded delays between a thread's last look at its pause flag and the retraction of its context; a '!ran-while-inspected' or freed-slot-access event, a crash, a truncated chain, a stale global or an inexact counter is a violation. Evidence lists the monitors' observations (stop-the-world operations, inspections of other threads, safepoint entries).",
              note='OS schedules are sampled (perturbed by the injected delays), not enumerated. The flag is checked where a thread starts touching its own state again; a thread running pure native code between two helper calls is not observed until the next call.', ref="DESIGN.md §5 C15"),
  "C16": dict(technique="bounded-progress monitoring with a stall watchdog on hook counters (H-prog: instructions dispatched, safepoint entries, stop-the-world begun/finished, collections; 'stoppers active' gauge tells a runtime rendezvous from script-level blocking) inside killable children + exactly-once / per-sender FIFO checks computed by the program over the received history",
@@ -55,7 +55,7 @@ CHECKS = {
  "C17": dict(technique="runtime monitoring of interruption: a second host thread calls ThreadStateController::interrupt() after a seeded delay while Engine::run executes a non-terminating shape; return time, result and post-resume probe observed from a parent process",
              text="Exploration: 23 non-terminating shapes x {JIT on, JIT off, module} x interrupt delays 0..600 ms; violation = Engine::run has not returned 25 s after the request, returns Ok, panics, or the probe after resume() answers wrongly.",
              note="'Bounded number of further steps' is decided by a generous wall-clock bound (no dispatch-counter hook was built).", ref="DESIGN.md §5 C17"),
- "C19": dict(technique="invariant at a hook (H-heap: live slots after forced full collections, allocator free count vs flags) over allocation patterns with a known live set; slot-vector growth sampling under the natural policy; weak boxes",
+ "C19": dict(technique="invariant at a hook (H-heap: live slots after forced full collections, allocator free count vs flags) over allocation patterns with a known live set, redefinition histories, cross-thread garbage and natively compiled allocation loops; slot-vector growth sampling under the natural policy; weak boxes",
              text="Exploration: 12 garbage patterns (acyclic, cycles of length 1..50 through boxes/vectors/struct fields, self-capturing closures, garbage held by a local during a collection, by a dead continuation, by exited threads) at two sizes: live slots after two forced full collections must not grow with the amount of garbage; natural-policy runs of 4*10^6 (quick) / 10^8 (thorough) allocations must keep the slot vectors bounded; a dead weak-box target must report dead.",
              note="'Eventually' = by the second forced full collection after the pattern ended. Liveness is read from the collector's own reachable flags.", ref="DESIGN.md §5 C19"),
  "C20": dict(technique="runtime monitoring of embedding code: recording host functions, round-trip / range oracles over seeded boundary values by three routes, lent Box freed after the call with a magic-word liveness check, all in a forked child",
